@@ -68,7 +68,7 @@ def parseOne (acc : Dict × Option String) (ruleNames : List String) (opt : Stri
     else if ruleNames.contains name then .ok (dictSet acc.1 "rule" (.s name), acc.2)
     else if ["report", "dump", "json"].contains name then .ok (dictSet acc.1 name (.b true), acc.2)
     else match acc.2 with
-      | some _ => .error .usage
+      | some p => if p != "" then .error .usage else .ok (dictSet acc.1 "path" (.s name), some name)   -- `if path:` is truthiness
       | none => .ok (dictSet acc.1 "path" (.s name), some name)
   | name :: val :: _ =>
     let lv := val.toLower
